@@ -5,7 +5,7 @@
    by differential testing against the Go toolchain only.  Statements only; every proof is [exact lemma]. *)
 From NG Require Import VM.Model.
 From NG Require Import Common.Tactics Lang.MiniGo Lang.Target Lang.Compile Lang.CorrectBase Lang.Correct Lang.Mono.
-From NG Require Import Lang.Assemble Lang.VMRefine Lang.VMCorrect.
+From NG Require Import Lang.Assemble Lang.VMRefine Lang.VMCorrect Lang.InitFrame.
 Open Scope Z_scope.
 
 (* Whenever the source run of function [f] on [vs] is defined — it returns a value, or divides by zero; no
@@ -201,6 +201,104 @@ Example C14_example_switch :
   run_src 200 C14_ex 3 [VInt 5] = Ok [VInt 1302] /\
   run_tgt (compile_program C14_ex) 2000 (entry C14_ex 3) [VInt 5] = THalt [VInt 1302].
 Proof. repeat split; vm_compute; reflexivity. Qed.
+
+(* ---------- the shared frame: all init() bodies in _initialize, all _deploy bodies in _deploy ----------
+   Several bodies, each compiled with slot numbers of its own starting at 0, behind ONE prologue "INITSLOT count args".
+   [exec_bodies]: the bodies run one after the other, each in the scope of the parameters alone ([params] = [] for
+   _initialize).  For every count that covers every body, the compiled frame (entered at offset 0 with the arguments
+   on the stack) halts when all bodies complete and faults when one divides by zero: no local slot index is out of
+   range in a defined run. *)
+Theorem C14_init_frame_correct : forall p count params bs vs n,
+  covers count bs -> length params = length vs ->
+  match exec_bodies n p (combine params vs) bs with
+  | Ok _ => exists m, run_tgt (compile_with_frame count params bs p) m 0%nat vs = THalt []
+  | Fault => exists m, run_tgt (compile_with_frame count params bs p) m 0%nat vs = TFault
+  | _ => True
+  end.
+Proof. exact frame_correct. Qed.
+Print Assumptions C14_init_frame_correct.
+
+Theorem C14_init_frame_correct_any_fuel : forall p count params bs vs n m t,
+  covers count bs -> length params = length vs ->
+  run_tgt (compile_with_frame count params bs p) m 0%nat vs = t -> t <> TTimeout ->
+  match exec_bodies n p (combine params vs) bs with
+  | Ok _ => t = THalt []
+  | Fault => t = TFault
+  | _ => True
+  end.
+Proof. exact frame_correct_any_fuel. Qed.
+Print Assumptions C14_init_frame_correct_any_fuel.
+
+(* the simulation behind it, in any context: the frame ends at its RET with [count] local slots, the parameters hold
+   what the bodies left in them, the stack below the arguments and the caller frames are untouched *)
+Theorem C14_init_frame_simulation : forall p C fe fr,
+  (forall f fn, nth_error p f = Some fn -> code_at C (fe f) (compile_func fe fr (fe f) fn)) ->
+  (forall f fn, nth_error p f = Some fn -> fr f = f_nres fn) ->
+  forall count params bs base vs s K n,
+  code_at C base (compile_frame fe fr count params base bs) ->
+  covers count bs -> length params = length vs ->
+  match exec_bodies n p (combine params vs) bs with
+  | Ok r' => exists qr L A, nth_error C qr = Some IRet /\ length L = count /\ menv r' (params_env 0 params) L A /\
+               star C (St base [] [] (vs ++ s) K) (St qr L A s K)
+  | Fault => goes_wrong C (St base [] [] (vs ++ s) K)
+  | _ => True
+  end.
+Proof. exact frame_sim. Qed.
+Print Assumptions C14_init_frame_simulation.
+
+(* the compiler's rule — the maximum over the bodies — covers every body and is the least count that does;
+   the sum covers them too (wasteful, not wrong) *)
+Theorem C14_frame_locals_is_least_cover : forall bs,
+  covers (frame_locals bs) bs /\ covers (sum_locals bs) bs /\ forall k, covers k bs -> (frame_locals bs <= k)%nat.
+Proof. intros bs. split; [apply frame_locals_covers|split; [apply sum_locals_covers|apply frame_locals_least]]. Qed.
+Print Assumptions C14_frame_locals_is_least_cover.
+
+Theorem C14_init_frame_correct_max : forall p params bs vs n,
+  length params = length vs ->
+  match exec_bodies n p (combine params vs) bs with
+  | Ok _ => exists m, run_tgt (compile_with_frame (frame_locals bs) params bs p) m 0%nat vs = THalt []
+  | Fault => exists m, run_tgt (compile_with_frame (frame_locals bs) params bs p) m 0%nat vs = TFault
+  | _ => True
+  end.
+Proof. exact frame_correct_max. Qed.
+Print Assumptions C14_init_frame_correct_max.
+
+(* refuted: "the local count of the LAST body" (and "of the FIRST body") in the place of the maximum —
+   func init() { a := 1; b := 2 }  func init() { c := 3 }  completes in the source and faults when compiled that way *)
+Theorem C14_init_frame_last_refuted :
+  ~ (forall p bs n, match exec_bodies n p [] bs with
+                    | Ok _ => exists m, run_tgt (compile_with_frame (last_locals bs) [] bs p) m 0%nat [] = THalt []
+                    | _ => True
+                    end).
+Proof. exact frame_last_refuted. Qed.
+Print Assumptions C14_init_frame_last_refuted.
+
+Theorem C14_init_frame_first_refuted :
+  ~ (forall p bs n, match exec_bodies n p [] bs with
+                    | Ok _ => exists m, run_tgt (compile_with_frame (first_locals bs) [] bs p) m 0%nat [] = THalt []
+                    | _ => True
+                    end).
+Proof. exact frame_first_refuted. Qed.
+Print Assumptions C14_init_frame_first_refuted.
+
+(* three init() bodies with 2, 3 and 1 declarations (a nested block and a loop header among them), the middle one calls
+   a function with four locals of its own: one INITSLOT 3 0 for the three of them, the function has its own INITSLOT 4 1 *)
+Definition C14_ex_init_callee : func := {| f_params := [0%N]; f_nres := 1; f_body :=
+  SSeq (SDecl 1%N (EBin Add (EVar 0%N) (ELit 1))) (SSeq (SDecl 2%N (EBin Mul (EVar 1%N) (ELit 2)))
+  (SSeq (SDecl 3%N (EBin Add (EVar 2%N) (EVar 1%N))) (SSeq (SDecl 4%N (EBin Sub (EVar 3%N) (ELit 1))) (SReturn [EVar 4%N])))) |}.
+Definition C14_ex_init_bodies : list stmt :=
+  [ SSeq (SDecl 0%N (ELit 1)) (SBlock (SDecl 1%N (EBin Add (EVar 0%N) (ELit 1))));
+    SSeq (SDecl 0%N (ECall 0 [ELit 5])) (SFor (SDecl 1%N (ELit 0)) (EBin Lt (EVar 1%N) (ELit 3)) (SInc 1%N) (SDecl 2%N (EVar 1%N)));
+    SDecl 0%N (ELit 7) ].
+Example C14_example_init_frame :
+  frame_locals C14_ex_init_bodies = 3%nat /\ last_locals C14_ex_init_bodies = 1%nat /\ sum_locals C14_ex_init_bodies = 6%nat /\
+  exec_bodies 100 [C14_ex_init_callee] [] C14_ex_init_bodies = Ok [] /\
+  hd_error (compile_with_frame 3 [] C14_ex_init_bodies [C14_ex_init_callee]) = Some (IInitSlot 3 0) /\
+  In (IInitSlot 4 1) (compile_with_frame 3 [] C14_ex_init_bodies [C14_ex_init_callee]) /\
+  run_tgt (compile_with_frame 3 [] C14_ex_init_bodies [C14_ex_init_callee]) 500 0%nat [] = THalt [] /\
+  run_tgt (compile_with_frame 6 [] C14_ex_init_bodies [C14_ex_init_callee]) 500 0%nat [] = THalt [] /\
+  run_tgt (compile_with_frame 1 [] C14_ex_init_bodies [C14_ex_init_callee]) 500 0%nat [] = TFault.
+Proof. repeat split; vm_compute; tauto. Qed.
 
 (* block scoping: the first clause declares the parameter's name again (its own slot, gone at the end of the clause);
    the second clause, the default clause (a write), the statement after the switch and the later iterations mean
